@@ -349,7 +349,44 @@ func cmdRun(args []string) int {
 		jobs = f
 	}
 	rep := newReport(pd, *tier, seed)
-	sum := runWorkers(pd, jobs, *workers, pd.solver(), pd.timeoutMs(*tier), work, "")
+	// conformance vectors (concrete engine runs compared with native runs) ride along in the same workers
+	nconf := pd.ConformanceQuick
+	if *tier == "thorough" {
+		nconf = pd.ConformanceThorough
+	}
+	var confJobs []sym.Job
+	if nconf > 0 && !*noReplay && len(jobs) > 0 {
+		for i := 0; i < nconf; i++ {
+			j := jobs[(i*7919)%len(jobs)]
+			sd := uint64(seed) + uint64(i)
+			j.Seed = &sd
+			j.ID = fmt.Sprintf("%s#seed%d", j.ID, sd)
+			confJobs = append(confJobs, j)
+		}
+	}
+	// the native replayer is built while the workers run
+	var replayerBin string
+	var replayerErr error
+	var wg sync.WaitGroup
+	if !*noReplay {
+		wg.Add(1)
+		go func() {
+			defer wg.Done()
+			replayerBin, replayerErr = buildReplayer(pd, work)
+		}()
+	}
+	sum := runWorkers(pd, append(append([]sym.Job{}, jobs...), confJobs...), *workers, pd.solver(), pd.timeoutMs(*tier), work, "")
+	var confRes []*sym.JobResult
+	var symRes []*sym.JobResult
+	for _, r := range sum.results {
+		if r.Job.Seed != nil {
+			confRes = append(confRes, r)
+		} else {
+			symRes = append(symRes, r)
+		}
+	}
+	sum.results = symRes
+	sum.jobs = len(jobs)
 	rep.absorb(sum, pd.solver())
 	// thorough: re-discharge with the other solvers
 	if *tier == "thorough" && !pd.SingleSolver {
@@ -361,13 +398,13 @@ func cmdRun(args []string) int {
 			rep.crossCheck(s2, sv)
 		}
 	}
-	// conformance: concrete engine runs vs native runs
-	nconf := pd.ConformanceQuick
-	if *tier == "thorough" {
-		nconf = pd.ConformanceThorough
+	wg.Wait()
+	if !*noReplay && replayerErr != nil {
+		rep.incon = append(rep.incon, replayerErr.Error())
 	}
-	if nconf > 0 && !*noReplay {
-		rep.conformance(pd, jobs, nconf, seed, *workers, work)
+	rep.replayer = replayerBin
+	if len(confJobs) > 0 && replayerErr == nil {
+		rep.conformance(confJobs, confRes, work)
 	}
 	if !*noReplay {
 		rep.replayAll(work)
